@@ -301,12 +301,30 @@ def source_tie_sym(ck):
 _W = {}
 
 
+def guarded_impl(sg, kind, x0, x, off, expandPosition, GeneratorSite):
+    """`check_impl`, and: the call leaves the tabulated operations of the setting as they were"""
+    import numpy as _np
+
+    before = [(o.R.tobytes(), o.t.tobytes()) for o in sg.symop_list]
+    try:
+        res = check_impl(sg, kind, x0, x, off, expandPosition, GeneratorSite)
+    except Exception as e:  # noqa: BLE001
+        res = ("raised %r" % (e,), None)
+    after = [(o.R.tobytes(), o.t.tobytes()) for o in sg.symop_list]
+    if after != before:
+        k = next(i for i, (a, b) in enumerate(zip(before, after)) if a != b)
+        # restore, so that the cases that follow in this process are judged on the tables as tabulated
+        for o, (rb, tb) in zip(sg.symop_list, before):
+            o.R[...] = _np.frombuffer(rb, dtype=o.R.dtype).reshape(o.R.shape)
+            o.t[...] = _np.frombuffer(tb, dtype=o.t.dtype).reshape(o.t.shape)
+        return ("the expansion changed the tabulated operation %d of the setting in place (translation now %r)" % (
+            k, _np.frombuffer(after[k][1], dtype=float).tolist()), None)
+    return res
+
+
 def _impl_worker(job):
     num, kind, x0, x, off = job
-    try:
-        return check_impl(_W["sgs"][num], kind, x0, x, off, *_W["fns"])
-    except Exception as e:  # noqa: BLE001
-        return "raised %r" % (e,), None
+    return guarded_impl(_W["sgs"][num], kind, x0, x, off, *_W["fns"])
 
 
 def run(ck):
@@ -441,6 +459,6 @@ def replay(path):
     x = [Fraction(v) for v in r["xyz"]]
     x0 = [Fraction(v) for v in r["special_site"]]
     off = [Fraction(v) for v in r["sgoffset"]]
-    prob, summ = check_impl(sg, r["variant"], x0, x, off, expandPosition, GeneratorSite)
+    prob, summ = guarded_impl(sg, r["variant"], x0, x, off, expandPosition, GeneratorSite)
     print("problem:", prob)
     return 1 if prob else 0
